@@ -27,7 +27,7 @@ type HijackClientHelloConn struct {
 	buf bytes.Buffer
 
 	// expected length of the TLS client hello record
-	expectedLen uint16
+	expectedLen int
 
 	// verbose log func
 	VerboseLogFunc func(string, ...any)
@@ -56,13 +56,13 @@ func (c *HijackClientHelloConn) hasCompleteClientHello() bool {
 	if bufLen == 0 || c.expectedLen == 0 {
 		return false
 	}
-	if bufLen < int(c.expectedLen) {
+	if bufLen < c.expectedLen {
 		return false
 	}
-	if bufLen > int(c.expectedLen) {
+	if bufLen > c.expectedLen {
 		// if buffer content is longer than we need,
 		// cut it to expected len
-		c.buf.Truncate(int(c.expectedLen))
+		c.buf.Truncate(c.expectedLen)
 		c.vlogf("truncated buffer from %d to %d bytes", bufLen, c.expectedLen)
 	}
 	return true
@@ -99,7 +99,7 @@ func (c *HijackClientHelloConn) tryParseClientHello() error {
 		return fmt.Errorf("unknown tls version: 0x%x", vers)
 	}
 
-	handshakeLen := uint16(bufBytes[3])<<8 | uint16(bufBytes[4])
+	handshakeLen := int(bufBytes[3])<<8 | int(bufBytes[4])
 	c.expectedLen = recordHeaderLen + handshakeLen
 
 	// call hasCompleteClientHello to truncate the buffer if possible
